@@ -22,16 +22,26 @@ class C01(EgSpec):
     streams = [
         {'name': 'expl', 'component': 'egx', 'config': 'explanations', 'quick': 160, 'thorough': 4000},
         {'name': 'default', 'component': 'eg', 'config': 'default', 'quick': 160, 'thorough': 4000, 'gen_extra': ['--justified']},
+        # the executable premises of the end-to-end soundness theorem of the e-graph MODEL (EGraph/SoundMachine.v:
+        # equality_sound_certified): inserted terms well formed and the guarded model run succeeds.  Where they hold, every equality
+        # the model reports between handles is derivable; the implementation's equality matrix must equal the model's (stream default)
+        {'name': 'certified', 'component': 'eg', 'config': 'default', 'quick': 200, 'thorough': 4000},
     ]
 
     def model_input(self, stream, case, impl_obs):
         pc, pi = core.sx_parse(case), core.sx_parse(impl_obs)
+        if stream['name'] == 'certified':
+            return core.sx_show(['egsound'] + pc[1:])
         if stream['name'] == 'expl':
             ex = field(pi, 'expl') or ['expl']
             return core.sx_show(['c01', pc[1], pc[2], pc[3], pc[4] if len(pc) > 4 else 'x', ex])
         return core.sx_show(['egall'] + pc[1:])
 
     def evaluate(self, stream, case, impl_obs, model_obs, ctx):
+        if stream['name'] == 'certified':
+            if model_obs is not None and model_obs.strip() != '(sound (terms-ok true) (guarded true))':
+                return [('differs', 'soundness-premise', 'the executable premises of the model-level soundness theorem fail on this history (the theorem does not apply to it): %s' % model_obs.strip(), {})]
+            return []
         if model_obs is None:
             return [('note', 'checker-time-limit', 'the verified checker exceeded its per-case time limit on this history; not judged', {})]
         pc, pi, pm = core.sx_parse(case), core.sx_parse(impl_obs), core.sx_parse(model_obs)
